@@ -11,6 +11,8 @@
 import Gzx.Proofs.DMTotalAB
 import Gzx.Proofs.DMMidstream
 import Gzx.Proofs.DMRoundTripGen
+import Gzx.Properties.C08
+import Gzx.Model.RS
 namespace Gzx.Properties.C02
 open Gzx Gzx.DMHighLevel
 
@@ -269,6 +271,47 @@ theorem dm_roundtrip_ascii_partial (T : Tables) (syms : List SymbolInfo) (la : L
     (hb : ∀ x ∈ msg, x < 256) (h : encodeHL syms la msg cfg = .ok cw) :
     decodeText T cw = .ok msg :=
   roundtrip_ascii T syms la hla msg cfg cw hb h
+
+/-! ## whole symbol: composition with the low-level models of C08 -/
+
+/-- `dm_symbol_roundtrip_partial`: text → `encodeHL` → reference symbol of C08 (reference ECC, interleaving,
+    Annex-F placement, finder/clock framing; any of the 30 ECC-200 sizes whose capacity equals the number of
+    codewords) → low-level decoder model of C08 (version by dimensions, data-region extraction, codeword
+    reading, de-interleaving) → Reed-Solomon decoding of every block → `decodeText` = text.
+    Hypotheses: the oracle conditions of `dm_roundtrip_five_modes_partial`; `hRS`: the Reed-Solomon decoder
+    model (C04) returns each reference block (data ++ ECC) unchanged — i.e. the reference ECC words are code
+    words of the decoder's code (C04 proves `rs_decode_clean` for words with zero syndromes; that the
+    reference ECC of C08 has zero syndromes is the link not proved here); `hcwb`: the model's codewords are
+    bytes (they are `[]byte` in the Go code by type; not proved for the `Nat`-valued model). -/
+theorem dm_symbol_roundtrip_partial (syms : List SymbolInfo) (la : LookAhead) (msg : List Nat) (cfg : Cfg)
+    (cw : List Nat) (hNoE : LaNoEdifact la)
+    (hTA : LaTailAscii la msg (initCtx msg cfg).total) (hXT : LaX12Tail la msg (initCtx msg cfg).total)
+    (hb : ∀ x ∈ msg, x < 256) (h : encodeHL syms la msg cfg = .ok cw) (hcwb : ∀ x ∈ cw, x < 256)
+    (p : DMRef.Sym × Nat) (hp : p ∈ DMRef.table7.zipIdx) (hn : cw.length = p.1.nData)
+    (hRS : ∀ b ∈ List.range p.1.blocks,
+      RS.decode GF.dataMatrix256 (DMRef.blockData p.1 cw b ++ DMRef.blockEcc p.1 cw b) p.1.blkErr
+        = .ok (DMRef.blockData p.1 cw b ++ DMRef.blockEcc p.1 cw b)) :
+    ∃ v grid raw blocks,
+      DMDec.newBitMatrixParser DMDec.versions ⟨p.1.cols, p.1.rows, (DMRef.symbolBits p.1 cw).flatten.toArray⟩
+        = .ok (v, grid) ∧
+      DMDec.readCodewords v grid = .ok raw ∧
+      DMDec.getDataBlocks raw v = .ok blocks ∧
+      (∀ nb ∈ blocks, RS.decode GF.dataMatrix256 nb.2 p.1.blkErr = .ok nb.2) ∧
+      DMDec.resultBytes blocks = .ok cw ∧
+      decodeText refTables cw = .ok msg := by
+  have hchain := Gzx.Properties.C08.decoder_inverts_reference_symbol p hp cw hn hcwb
+  simp only at hchain
+  obtain ⟨h1, h2, h3, h4⟩ := hchain
+  refine ⟨_, _, _, _, h1, h2, h3, ?_, h4, roundtrip_gen syms la msg cfg cw hNoE hTA hXT hb h⟩
+  intro nb hnb
+  simp only [List.mem_map] at hnb
+  obtain ⟨b, hbm, rfl⟩ := hnb
+  exact hRS b hbm
+
+/-- non-vacuity of `hRS`: for "A12" = [66, 142, 129] in the 10x10 symbol the reference block is
+    [66, 142, 129, 170, 115, 225, 118, 63] and the Reed-Solomon decoder model returns it unchanged -/
+example : RS.decode GF.dataMatrix256 [66, 142, 129, 170, 115, 225, 118, 63] 5
+    = .ok [66, 142, 129, 170, 115, 225, 118, 63] := by decide +kernel
 
 /-! ## termination -/
 
